@@ -320,6 +320,13 @@ def coo_exprs(c, r):
 
 
 # ------------------------------------------------------------------------------------------------
+def pclose(a, b):
+    if len(a) != len(b):
+        return False
+    sc = max([1.0] + [abs(x) for x in b])
+    return all(abs(x - y) <= PREC_TOL * sc for x, y in zip(a, b))
+
+
 def oracle(ctx, c, r):
     """Property-level checks of the real code against independent references."""
     import numpy as np
@@ -328,6 +335,8 @@ def oracle(ctx, c, r):
         ctx.violation(what, {"case": c, "finding_key": key})
         return False
 
+    if c["kind"] == "fstate":
+        return oracle_fstate(ctx, c, r)
     if c["kind"] == "state":
         N, D = c["N"], 2 ** c["N"]
         vec = [0j] * D
@@ -336,18 +345,18 @@ def oracle(ctx, c, r):
         oth = [cplx(p) for p in c["other"]]
         nrm = math.sqrt(sum(abs(x) ** 2 for x in vec))
         ok = r["raw"] == vec or bad("amplitudes placed at wrong indices", "state-placement")
-        ok &= close(r["normed"], [x / nrm for x in vec], False) or bad("normalised state wrong", "state-normalize")
+        ok &= pclose(r["normed"], [x / nrm for x in vec]) or bad("normalised state wrong", "amplitudes-lose-precision")
         inner = sum(x.conjugate() * y for x, y in zip(vec, oth))
         ok &= (r["inner"] == inner and r["inner_m"] == inner) or bad("inner product wrong", "state-inner")
         ok &= r["add"] == [x + y for x, y in zip(vec, oth)] or bad("sum wrong", "state-add")
         ok &= r["rmul"] == [cplx(c["scalar"]) * x for x in vec] or bad("scaling wrong", "state-rmul")
-        ok &= abs(r["overlap"] - abs(inner) ** 2) <= TOL * max(1.0, abs(inner) ** 2) or bad("overlap wrong", "state-overlap")
-        ok &= abs(r["norm"] - nrm) <= TOL * max(1.0, nrm) or bad("norm wrong", "state-norm")
+        ok &= abs(r["overlap"] - abs(inner) ** 2) <= PREC_TOL * max(1.0, abs(inner) ** 2) or bad("overlap wrong", "state-overlap")
+        ok &= abs(r["norm"] - nrm) <= PREC_TOL * max(1.0, nrm) or bad("norm wrong", "state-norm")
         rho = [x * y.conjugate() for x in vec for y in vec]
         ok &= r["rho"] == rho or bad("from_state_vector is not psi psi^dagger", "dm-outer")
         sig = [x * y.conjugate() for x in oth for y in oth]
         ok &= r["dm_overlap"] == sum(x.conjugate() * y for x, y in zip(rho, sig)) or bad("dm overlap wrong", "dm-overlap")
-        ok &= close(r["dmn"], [x / nrm ** 2 for x in rho], False) or bad("DensityMatrix from amplitudes wrong", "dm-amps")
+        ok &= pclose(r["dmn"], [x / nrm ** 2 for x in rho]) or bad("DensityMatrix from amplitudes wrong", "amplitudes-lose-precision")
         ok &= r["n_qudits"] == (N, N) or bad("n_qudits wrong", "n-qudits")
         return ok
     if c["kind"] == "op":
@@ -382,6 +391,139 @@ def oracle(ctx, c, r):
     return True
 
 
+# ------------------------------------------------------------------------------------------------
+# precision / dtype oracle on GENERIC (non-dyadic) float inputs: every constructor and operation must return
+# complex128 data agreeing with a float64 numpy reference to PREC_TOL (relative to the data scale).
+# float64 rounding of these computations is <= ~1e-14 for N <= 6; a pass through single precision is >= 1e-9.
+PREC_TOL = 1e-12
+ATYPES = ["float", "complex", "numpy", "tensor", "mixed"]
+
+
+def _fl(rng):
+    return rng.choice([0.1, 0.2, 0.3, 0.4, 0.6, 0.8, 0.7, 1 / 3, 1 / math.sqrt(2), 0.9]) if rng.random() < 0.5 \
+        else rng.uniform(-1, 1) * 10 ** rng.uniform(-2, 1)
+
+
+def gen_fstate_case(rng, N, atype=None):
+    atype = atype or rng.choice(ATYPES)
+    D = 2 ** N
+    keys = rng.sample(range(D), rng.choice([min(D, 2), min(D, 4), rng.randint(1, min(D, 12))]))
+    real_only = atype == "float"
+    amps = [["".join("r" if (k >> (N - 1 - q)) & 1 else "g" for q in range(N)),
+             [_fl(rng), 0.0 if (real_only or rng.random() < 0.3) else _fl(rng)]] for k in keys]
+    if all(a == [0.0, 0.0] for _, a in amps):
+        amps[0][1] = [0.6, 0.0]
+    ops = []
+    for _ in range(rng.randint(1, 3)):
+        sites = rng.sample(range(N), rng.randint(1, min(N, 3)))
+        ops.append([[_fl(rng), _fl(rng)], [[[[k, [_fl(rng), _fl(rng)]] for k in
+                                             rng.sample(["gg", "gr", "rg", "rr"], rng.randint(1, 4))], [t]]
+                                           for t in sites]])
+    return {"kind": "fstate", "N": N, "atype": atype, "amps": amps, "ops": ops,
+            "other": [[_fl(rng), _fl(rng)] for _ in range(D)], "scalar": [_fl(rng), _fl(rng)]}
+
+
+def _conv(a, atype, i):
+    import numpy as np
+    import torch
+    z = complex(a[0], a[1])
+    t = atype if atype != "mixed" else ATYPES[i % 4]
+    if t == "float":
+        return float(a[0]) if a[1] == 0.0 else z
+    if t == "complex":
+        return z
+    if t == "numpy":
+        return np.float64(a[0]) if a[1] == 0.0 else np.complex128(z)
+    return torch.tensor(a[0], dtype=torch.float64) if a[1] == 0.0 else torch.tensor(z, dtype=torch.complex128)
+
+
+def impl_fstate(c):
+    import torch
+    from emu_sv.state_vector import StateVector, inner
+    from emu_sv.density_matrix_state import DensityMatrix
+    from emu_sv.dense_operator import DenseOperator
+    from emu_sv.sparse_operator import SparseOperator
+    N = c["N"]
+    amps = {s: _conv(a, c["atype"], i) for i, (s, a) in enumerate(c["amps"])}
+    tl = lambda t: [complex(x) for x in t.reshape(-1).tolist()]
+    out, dt = {}, {}
+
+    def rec(name, t, dense=False):
+        dt[name] = str(t.dtype)
+        out[name] = tl(t.to_dense() if dense else t)
+
+    sv = StateVector.from_state_amplitudes(eigenstates=("r", "g"), amplitudes=amps)
+    sv_p, _ = StateVector._from_state_amplitudes(eigenstates=("r", "g"), n_qudits=N, amplitudes=amps)
+    dm = DensityMatrix.from_state_amplitudes(eigenstates=("r", "g"), amplitudes=amps)
+    dm_p, _ = DensityMatrix._from_state_amplitudes(eigenstates=("r", "g"), n_qudits=N, amplitudes=amps)
+    other = StateVector(torch.tensor([cplx(p) for p in c["other"]], dtype=torch.complex128), gpu=False)
+    s = cplx(c["scalar"])
+    ops = _ops_py(c["ops"])
+    d = DenseOperator.from_operator_repr(eigenstates=("r", "g"), n_qudits=N, operations=ops)
+    sp = SparseOperator.from_operator_repr(eigenstates=("r", "g"), n_qudits=N, operations=ops)
+    rec("sv", sv.data); rec("sv_private", sv_p.data); rec("dm", dm.data); rec("dm_private", dm_p.data)
+    rec("dm_from_sv", DensityMatrix.from_state_vector(sv).data)
+    rec("add", (sv + other).data); rec("rmul", (s * sv).data)
+    rec("dense", d.data); rec("sparse", sp.data, True)
+    rec("apply", d.apply_to(sv).data); rec("sp_apply", sp.apply_to(sv).data)
+    rec("matmul", (d @ d).data); rec("op_add", (d + d).data); rec("op_rmul", (s * d).data)
+    rec("sp_add", (sp + sp).data, True); rec("sp_rmul", (s * sp).data, True)
+    for name, val in (("inner", inner(sv, other)), ("inner_rev", other.inner(sv)), ("overlap", sv.overlap(other)),
+                      ("norm", sv.norm()), ("expect", d.expect(sv)), ("sp_expect", sp.expect(sv)),
+                      ("dm_overlap", dm.overlap(DensityMatrix.from_state_vector(other)))):
+        dt[name] = str(val.dtype)
+        out[name] = [complex(val)]
+    return {"vals": out, "dtypes": dt}
+
+
+def ref_fstate(c):
+    import numpy as np
+    N, D = c["N"], 2 ** c["N"]
+    vec = np.zeros(D, dtype=complex)
+    for sname, a in c["amps"]:
+        vec[int(sname.replace("r", "1").replace("g", "0"), 2)] = cplx(a)
+    nrm = math.sqrt(sum(abs(x) ** 2 for x in vec))
+    psi = vec / nrm
+    oth = np.array([cplx(p) for p in c["other"]], dtype=complex)
+    s = cplx(c["scalar"])
+    M = ref_op(c)
+    rho, sig = np.outer(psi, psi.conj()), np.outer(oth, oth.conj())
+    ip = np.vdot(psi, oth)
+    e = np.vdot(psi, M @ psi)
+    return {"sv": psi, "sv_private": psi, "dm": rho, "dm_private": rho, "dm_from_sv": rho, "add": psi + oth,
+            "rmul": s * psi, "dense": M, "sparse": M, "apply": M @ psi, "sp_apply": M @ psi, "matmul": M @ M,
+            "op_add": M + M, "op_rmul": s * M, "sp_add": M + M, "sp_rmul": s * M, "inner": [ip],
+            "inner_rev": [np.conj(ip)], "overlap": [abs(ip) ** 2], "norm": [1.0], "expect": [e], "sp_expect": [e],
+            "dm_overlap": [np.vdot(rho.reshape(-1), sig.reshape(-1))]}
+
+
+REAL_VALUED = {"overlap": "torch.float64", "norm": "torch.float64"}
+
+
+def oracle_fstate(ctx, c, r):
+    import numpy as np
+    ref = ref_fstate(c)
+    ok = True
+    for name, want in ref.items():
+        got = np.array(r["vals"][name], dtype=complex)
+        want = np.asarray(want, dtype=complex).reshape(-1)
+        scale = max(1.0, float(np.max(np.abs(want))) if want.size else 1.0)
+        err = float(np.max(np.abs(got - want))) if got.shape == want.shape else float("inf")
+        if not (err <= PREC_TOL * scale):
+            ok = False
+            key = "amplitudes-lose-precision" if name in ("sv", "sv_private", "dm", "dm_private") else "precision-" + name
+            ctx.violation(f"{name}: deviates from the float64 reference by {err:.3e} (allowed {PREC_TOL * scale:.1e}) "
+                          f"on generic float amplitudes of type {c['atype']}, N={c['N']}",
+                          {"case": c, "finding_key": key, "max_abs_error": err})
+        wanted_dtype = REAL_VALUED.get(name, "torch.complex128")
+        if r["dtypes"][name] != wanted_dtype:
+            ok = False
+            ctx.violation(f"{name}: dtype {r['dtypes'][name]} instead of {wanted_dtype}",
+                          {"case": c, "finding_key": "dtype-not-complex128"})
+    return ok
+
+
+
 def bits_check(ctx, N):
     """index_to_bitstring on every index of an N-qubit register; returns the list of digit lists."""
     from emu_sv.utils import index_to_bitstring
@@ -406,7 +548,7 @@ def corpus_cases():
 
 
 def run_real(c):
-    return {"state": impl_state, "op": impl_op, "coo": impl_coo}[c["kind"]](c)
+    return {"state": impl_state, "op": impl_op, "coo": impl_coo, "fstate": impl_fstate}[c["kind"]](c)
 
 
 def run(ctx):
@@ -440,8 +582,12 @@ def run(ctx):
     for N in range(1, 9):
         for _ in range(ctx.n(3, 20) if N <= 6 else ctx.n(1, 4)):
             cases.append(gen_state_case(rng, N))
-        for i in range(ctx.n(8, 30) if N <= 5 else ctx.n(2, 4)):
+        for i in range(ctx.n(6, 30) if N <= 5 else ctx.n(2, 4)):
             cases.append(gen_op_case(rng, N, repeated=(i % 3 == 2)))
+    for N in range(1, 7):   # precision / dtype oracle on generic floats (no model: float rounding is outside it)
+        for i in range(ctx.n(5, 30)):
+            cases.append(gen_fstate_case(rng, N, atype=ATYPES[i % len(ATYPES)]))
+
     n_model = 0
     for c in cases:
         r = run_real(c)
@@ -452,7 +598,7 @@ def run(ctx):
             k2 = "op-shape/" + c.get("shape", "-") + ("/first-coeff-1-multi-entry" if any(
                 len(q) > 1 and q[0][1] == [1, 0] for _, t in c["ops"] for q, _ in t) else "")
             hist[k2] = hist.get(k2, 0) + 1
-        nontrivial = c["kind"] == "coo" or (c["N"] >= 2 and (c["kind"] == "state" or any(t for _, t in c["ops"])))
+        nontrivial = c["kind"] == "coo" or (c["N"] >= 2 and (c["kind"] in ("state", "fstate") or any(t for _, t in c["ops"])))
         ctx.count_case({k: c[k] for k in c if k not in ("vec", "other")} | {"oracle_ok": ok}, nontrivial)
         if not model_ok:
             continue
@@ -499,11 +645,13 @@ def run(ctx):
                          "torch coalesce()/to_dense() sum duplicate COO entries (the model keeps COO lists "
                          "uncoalesced and compares through to_dense)",
                          "numpy kron / matmul for the independent references"]
-    ctx.assumptions += ["N >= 1 (for N = 0 Python's format(0, '00b') returns '0', a string of length 1; the model "
+    ctx.assumptions += [f"precision oracle: generic float inputs, N <= 6, tolerance {PREC_TOL} relative to the data "
+                        "scale (float64 rounding there is <= ~1e-14; a pass through float32 is >= 1e-9)",
+                        "N >= 1 (for N = 0 Python's format(0, '00b') returns '0', a string of length 1; the model "
                         "returns the empty string there)",
                         "StateVector._normalize (a float division by the norm) is rebound to a no-op for the exact "
-                        "comparison of amplitude placement; the normalised result is checked with tolerance 1e-9",
-                        "overlap and norm go through torch.abs / vector_norm and are checked with tolerance 1e-9",
+                        "comparison of amplitude placement; the normalised result is checked with tolerance 1e-12",
+                        "overlap and norm go through torch.abs / vector_norm and are checked with tolerance 1e-12",
                         "model tie for operators up to N = 4 (5 thorough); larger N are covered by the theorems and "
                         "by the numpy oracle on the real code"]
 
